@@ -6,7 +6,7 @@ import random
 
 _mid = itertools.count()
 
-DEFAULT_POOL = [1, 0, -3, 2.5, -0.5, True, False, "s", "q'x", 7]
+DEFAULT_POOL = [1, 0, -3, 2.5, -0.5, True, False, "s", "q'x", 7, 1.0, 0.0, True, False, 1.0, 0.0, -0.0, "1", ""]
 TYPE_OF = {int: "int", float: "float", bool: "bool", str: "str"}
 
 
